@@ -245,6 +245,7 @@ func checkC06(c *Ctx) {
 		c.Floor("C06.R1", "forward sites on paths of doIntentRequestChecks", forwards, 1)
 	}
 
+	c06NoDeadline(c)
 	c06Serialise(c)
 	c06Hopclient(c)
 	c06ReadConf(c)
@@ -517,5 +518,46 @@ func c06Target(c *Ctx) {
 	})
 	if ok {
 		fs3.report(c, "C06.R4", FuncName(ag), []string{"stored"}, P.Pos(ag.Pos()), fmt.Sprintf("grant and key stored on all %d nil paths", succ))
+	}
+}
+
+// Answers on the target connection are paired with requests purely by order and
+// the connection is reused after a failed read. That is only sound while a read
+// of the target's answer cannot give up early: a read deadline on targetConn
+// would let a late answer be taken for the answer to the next request.
+func c06NoDeadline(c *Ctx) {
+	P := c.P
+	c.Rule("C06.R5", "request/answer pairing on the reused target connection: no deadline is armed on p.targetConn anywhere in the principal (a timed-out read would leave a late answer in the stream to be attributed to the next request) (E4 who-may-call)")
+	fTarget := P.Field("authgrants", "principalInstance", "targetConn")
+	if fTarget == nil {
+		c.Undecided("C06.R5", "authgrants.principalInstance.targetConn", "field not found")
+		return
+	}
+	n := 0
+	bad := false
+	for _, f := range P.ModuleFuncs("authgrants") {
+		eachInstr(f, func(ins ssa.Instruction) {
+			call, ok := ins.(*ssa.Call)
+			if !ok {
+				return
+			}
+			fn := calleeFunc(&call.Call)
+			if fn == nil {
+				return
+			}
+			args := callArgs(&call.Call)
+			if len(args) == 0 || !endsInField(args[0], fTarget, false) {
+				return
+			}
+			n++
+			switch fn.Name() {
+			case "SetDeadline", "SetReadDeadline":
+				bad = true
+				c.Fail("C06.R5", "deadline:targetConn@"+FuncName(f), P.InstrPos(call), "a read deadline is armed on the principal's target connection, which is reused for later requests and pairs answers with requests only by order: after a timeout the late answer to request N is read as the answer to request N+1 (a denied intent can be confirmed to the delegate)")
+			}
+		})
+	}
+	if !bad {
+		c.OK("C06.R5", "deadline:targetConn", "-", fmt.Sprintf("%d method calls on p.targetConn, none arms a read deadline", n))
 	}
 }
